@@ -1,4 +1,4 @@
-CONSTANTS TMAX = 1  MAXE = 3  MAXW = 1  ITERS = 1  KEYS = {1, 2}  OPENEND = TRUE
+CONSTANTS TMAX = 1  MAXE = 3  MAXW = 1  ITERS = 1  KEYS = {1, 2}  FIX_F7 = TRUE
 SPECIFICATION Spec
 INVARIANTS C13_Txn
 CHECK_DEADLOCK FALSE
